@@ -389,6 +389,14 @@ def force_oracle(case, steps):
         elif kind == 'value':
             me = ident(op['name'])
             ran = [r for r in s['runs']]
+            # unforced tasks keep being served from storage: whatever ran was marked, or had no stored result
+            for r in sorted(set(ran)):
+                slug, key = r.split('#')
+                data = next((x['data'] for x in case['classes'] if pl.slug_of(x) == slug), 'json')
+                path = '/'.join(slug.split(':')) + f'/{key}.json'
+                if data == 'json' and k > 0 and path in steps[k - 1]['files'] and (ch['group'], r) not in forced:
+                    return (f'step {k}: the request for {op["name"]} ran {r}, which is not marked as forced and whose result was '
+                            f'stored ({path}); marked: {sorted(i[1] for i in forced if i[0] == ch["group"])}')
             consume({ch['group']}, ran, s['out'] != 'error')
             if me in pending:
                 if ran.count(me[1]) != 1:
@@ -529,6 +537,18 @@ Definition hist_model (c : World.world * list op) : list value :=
                                  {'op': 'force_chain', 'chain': 0, 'picks': [0], 'recompute': False, 'delete': True},
                                  {'op': 'flags', 'chain': 0}, {'op': 'has_data', 'chain': 0, 'pick': 2},
                                  {'op': 'value', 'chain': 0, 'pick': 2}]))
+        # one task forced directly (Task.force): its unforced dependants with stored results are loaded, in a new chain
+        # and after reset_data, before and after the forced task itself was asked
+        for order in ([1, 2, 0, 1], [2, 0, 2, 1], [3, 1, 0, 3]):
+            out.append(dict(classes=dia, files={}, base=base, context=None,
+                            ops=[{'op': 'build', 'base': base}, {'op': 'value', 'chain': 0, 'pick': 2}, {'op': 'value', 'chain': 0, 'pick': 3},
+                                 {'op': 'restart'}, {'op': 'build', 'base': base},
+                                 {'op': 'force_task', 'chain': 0, 'pick': 0, 'delete': False}, {'op': 'flags', 'chain': 0}] +
+                                [{'op': 'value', 'chain': 0, 'pick': k} for k in order] +
+                                [{'op': 'force_task', 'chain': 0, 'pick': 1, 'delete': False}, {'op': 'reset', 'chain': 0, 'pick': 2},
+                                 {'op': 'value', 'chain': 0, 'pick': 2}, {'op': 'reset', 'chain': 0, 'pick': 2},
+                                 {'op': 'value', 'chain': 0, 'pick': 2}, {'op': 'value', 'chain': 0, 'pick': 1},
+                                 {'op': 'flags', 'chain': 0}]))
         # reset_data between forcing and the next request: the value held in memory goes, the mark stays
         out.append(dict(classes=dia, files={}, base=base, context=None,
                         ops=[{'op': 'build', 'base': base}, {'op': 'value', 'chain': 0, 'pick': 2},
@@ -539,8 +559,9 @@ Definition hist_model (c : World.world * list op) : list value :=
                              {'op': 'value', 'chain': 0, 'pick': 2}, {'op': 'value', 'chain': 0, 'pick': 3},
                              {'op': 'reset', 'chain': 0, 'pick': 3}, {'op': 'value', 'chain': 0, 'pick': 3}]))
         # configurations from the chain-construction corpus whose tasks' values depend on per-namespace settings
-        for c0 in [c for c in cs if c['base'].get('file') == 'multi.json' and 'model' in str(c['files']) or 'Collect' in str(c['classes'])]:
-            c1 = dict(c0)
+        for c0 in [c for c in cs if c['base'].get('file') == 'multi.json' and 'model' in str(c['files']) or 'Collect' in str(c['classes'])
+                   or c.get('hist')]:
+            c1 = {k: v for k, v in c0.items() if k != 'hist'}
             c1['ops'] = [{'op': 'build', 'base': c0['base']}] + [{'op': 'value', 'chain': 0, 'pick': k} for k in range(8)] + \
                         [{'op': 'restart'}, {'op': 'build', 'base': c0['base']}] + [{'op': 'value', 'chain': 0, 'pick': k} for k in range(8)]
             out.append(c1)
